@@ -21,7 +21,7 @@ func init() { sim.Register(c12{}) }
 
 func (c12) ID() string     { return "C12" }
 func (c12) Level() string  { return "exploration" }
-func (c12) QuickRuns() int { return 2400 }
+func (c12) QuickRuns() int { return 9600 }
 func (c12) Rule() string {
 	return "each evaluation is one of three kinds: (a) a generated program on emulator.System driven by RunUntil with budget/target placed relative to a measured reference pass, OnPC/OnWDM callbacks on chosen addresses and a simulated Logger, compared with a bare-Step twin that applies the property's own definition; (b) a generated program on a bare cpu65c816 or cpualt with a seeded STP/Reset lifecycle, monitored step by step (cycles >= 1, AllCycles delta, stop flag = STP executed since last Reset); (c) a single-opcode sweep over M x X x E x DL x page-cross x branch-outcome on both interpreters; distinct = distinct scenario hash; non-trivial = the budget expired inside the run, or the target was hit, or a callback fired, or STP/Reset occurred, or it is a sweep"
 }
@@ -116,12 +116,9 @@ type stepRec struct {
 	Cycles int
 }
 
-// brokeInLoop: the last refRun ended inside the loop at the target check (one more trace line).
-var brokeInLoop bool
-
 // refRun applies the property's definition of RunUntil with bare Step calls.
-func refRun(sm *SysMachine, target uint32, budget uint64, maxSteps int) (recs []stepRec, onTarget bool, panicMsg string) {
-	brokeInLoop = false
+// brokeInLoop: the loop ended at its target check (the traced run prints one more line).
+func refRun(sm *SysMachine, target uint32, budget uint64, maxSteps int) (recs []stepRec, onTarget bool, panicMsg string, brokeInLoop bool) {
 	cpu := cpuA{&sm.S.CPU}
 	p, pv := sim.RecoverLib(func() {
 		for cycles := uint64(0); cycles < budget && len(recs) < maxSteps; {
@@ -168,7 +165,7 @@ func c12sys(sc *sim.Scenario, env *sim.Env) *sim.Violation {
 		return &sim.Violation{Oracle: "HARNESS_PANIC", Msg: err.Error()}
 	}
 	loadSystem(smP, sc)
-	pre, _, prePanic := refRun(smP, 0xFFFFFFFF, 4000, 700)
+	pre, _, prePanic, _ := refRun(smP, 0xFFFFFFFF, 4000, 700)
 	if prePanic != "" && len(pre) == 0 {
 		st.Abort("first_step_panics")
 		return nil
@@ -225,8 +222,7 @@ func c12sys(sc *sim.Scenario, env *sim.Env) *sim.Violation {
 		return &sim.Violation{Oracle: "HARNESS_PANIC", Msg: err.Error()}
 	}
 	loadSystem(smR, sc)
-	recs, refOnTarget, refPanic := refRun(smR, target, budget, int(budget)+2)
-	refBroke := brokeInLoop
+	recs, refOnTarget, refPanic, refBroke := refRun(smR, target, budget, int(budget)+2)
 	regsR := cpuA{&smR.S.CPU}.Regs()
 	refStalled := len(recs) > int(budget)
 
